@@ -1,12 +1,18 @@
 package main
 
 import (
+	"crypto/sha256"
 	"fmt"
+	"os"
+	"path/filepath"
 	"sort"
 	"strings"
 	"sync"
 
+	"github.com/gardenbed/charm/ui"
+
 	"github.com/gardenbed/emerge/internal/ebnf/parser/spec"
+	"github.com/gardenbed/emerge/internal/generate/golang"
 	"github.com/gardenbed/emerge/internal/regex/parser/ast"
 	"github.com/gardenbed/emerge/internal/regex/parser/nfa"
 )
@@ -48,6 +54,61 @@ var Ops = []struct {
 	// name in one, rule name in the other; same grammar name): anything keyed by text alone confuses them
 	{"parse-five-dfa", func() string { return parseDigest(specFive, true, true) }},
 	{"parse-six-dfa", func() string { return parseDigest(specSix, true, true) }},
+	// the whole pipeline, generation included: the emitted files of one specification must not depend on another one
+	// generated before it or at the same time
+	{"generate-two", func() string { return generateDigest(specTwo, false) }},
+	{"generate-six-debug", func() string { return generateDigest(specSix, true) }},
+	// two specifications with the same definition names, texts and order in which ONE definition is a literal in the
+	// first and a pattern in the second
+	{"generate-rep-literal", func() string { return generateDigest(specRepLiteral, false) }},
+	{"generate-rep-pattern", func() string { return generateDigest(specRepPattern, false) }},
+}
+
+const (
+	specRepLiteral = "grammar rep ;\nREP = \"a+\" ;\nNUMBER = /[0-9]+/ ;\nstart = REP NUMBER \";\" ;\n"
+	specRepPattern = "grammar rep ;\nREP = /a+/ ;\nNUMBER = /[0-9]+/ ;\nstart = REP NUMBER \";\" ;\n"
+)
+
+// silent is a ui.UI that discards everything.
+type silent struct{ level ui.Level }
+
+func (u *silent) Printf(string, ...interface{})           {}
+func (u *silent) GetLevel() ui.Level                      { return u.level }
+func (u *silent) SetLevel(l ui.Level)                     { u.level = l }
+func (u *silent) Tracef(ui.Style, string, ...interface{}) {}
+func (u *silent) Debugf(ui.Style, string, ...interface{}) {}
+func (u *silent) Infof(ui.Style, string, ...interface{})  {}
+func (u *silent) Warnf(ui.Style, string, ...interface{})  {}
+func (u *silent) Errorf(ui.Style, string, ...interface{}) {}
+
+func generateDigest(text string, debug bool) string {
+	s, err := spec.Parse("f.g", strings.NewReader(text))
+	if err != nil {
+		return "ERROR " + err.Error()
+	}
+	dir, err := os.MkdirTemp("", "verif-c17-gen-")
+	if err != nil {
+		return "MKTEMP " + err.Error()
+	}
+	defer os.RemoveAll(dir)
+	if err := golang.Generate(&silent{}, &golang.Params{Debug: debug, Path: dir, Spec: s}); err != nil {
+		return "GENERATE ERROR " + strings.ReplaceAll(err.Error(), dir, "<out>")
+	}
+	var files []string
+	_ = filepath.Walk(dir, func(p string, info os.FileInfo, err error) error {
+		if err == nil && !info.IsDir() {
+			files = append(files, p)
+		}
+		return nil
+	})
+	sort.Strings(files)
+	var b strings.Builder
+	for _, f := range files {
+		c, _ := os.ReadFile(f)
+		rel, _ := filepath.Rel(dir, f)
+		fmt.Fprintf(&b, "FILE %s %x\n", rel, sha256.Sum256(c))
+	}
+	return b.String()
 }
 
 const (
